@@ -284,6 +284,7 @@ func (f *Frame) havocAll(h *Heap) *Heap {
 			continue
 		}
 		nh.comps[n] = vc.Fresh(fmt.Sprintf("hv%d.%s", vc.epoch, n), s)
+		vc.AssumeCompTyping(n, nh.comps[n])
 	}
 	na := vc.Fresh("alloc", SInt)
 	vc.Assume(Ge(na, h.Comp(allocComp, SInt)))
@@ -365,7 +366,7 @@ func (f *Frame) bindContractNames(fc *FuncContract, callee *ssa.Function, fnVal 
 		if sig.Recv() != nil || len(args) == sig.Params().Len()+1 {
 			// interface method: first arg is the receiver (interface value)
 			pnames = append(pnames, "self")
-			ptypes = append(ptypes, nil)
+			ptypes = append(ptypes, types.NewInterfaceType(nil, nil))
 		}
 		for i := 0; i < sig.Params().Len(); i++ {
 			pnames = append(pnames, sig.Params().At(i).Name())
@@ -419,6 +420,11 @@ func (f *Frame) applyContractFn(fc *FuncContract, callee *ssa.Function, name str
 		id := f.w.FnID(callee)
 		vc.UseFnID(id)
 		vars["fn"] = SVal{T: IntLit(int64(id))}
+	}
+	if fc.Implements != "" && len(args) > 0 {
+		if sv, ok := f.selfIface(callee, args[0]); ok {
+			vars["self"] = sv
+		}
 	}
 	pre := &SpecEnv{W: f.w, Vars: vars, Heap: st.Heap, Old: st.Heap, Scope: fc.ScopePkg, Side: vc}
 	site := vc.Ordinal(f.label + "#pre@" + name)
@@ -601,8 +607,41 @@ func (w *World) effectiveContract(fc *FuncContract) *effContract {
 			add(base)
 		}
 	}
+	if fc.Implements != "" {
+		if base := w.findIfaceContract(fc.Implements, fc.ScopePkg); base != nil {
+			add(base)
+			if base.Pure {
+				ec.pure = true
+			}
+			if base.NoPanic {
+				ec.noPanic = true
+			}
+		}
+	}
 	add(fc)
 	return ec
+}
+
+func (w *World) findIfaceContract(name, scope string) *FuncContract {
+	if fc := w.NamedC["interface:"+scope+"."+name]; fc != nil {
+		return fc
+	}
+	for k, fc := range w.NamedC {
+		if strings.HasPrefix(k, "interface:") && strings.HasSuffix(k, "."+name) {
+			return fc
+		}
+	}
+	return nil
+}
+
+// selfIface boxes the receiver of a method into an interface value (for
+// contracts inherited from an interface method).
+func (f *Frame) selfIface(callee *ssa.Function, recv Val) (SVal, bool) {
+	if callee == nil || callee.Signature.Recv() == nil || recv.Loc != nil {
+		return SVal{}, false
+	}
+	rt := callee.Signature.Recv().Type()
+	return SVal{T: MkIface(IntLit(int64(f.w.Sorts.Tag(rt))), f.w.Sorts.Box(recv.T)), Go: types.NewInterfaceType(nil, nil)}, true
 }
 
 func (w *World) findFuncType(name, scope string) *FuncContract {
@@ -678,7 +717,7 @@ func (f *Frame) havocTarget(env *SpecEnv, c Clause, heap, pre *Heap) (*Heap, err
 		switch u := v.Go.Underlying().(type) {
 		case *types.Slice:
 			es := f.w.Sorts.SortOf(u.Elem())
-			comp := memComp(es)
+			comp := memCompT(u.Elem())
 			return heap.Set(comp, vc.Define("h."+comp, Store(heap.Comp(comp, memSort(es)), SArr(v.T), vc.Fresh("hv", ArraySort(SInt, es))))), nil
 		case *types.Map:
 			ks, vs := f.w.Sorts.SortOf(u.Key()), f.w.Sorts.SortOf(u.Elem())
@@ -863,7 +902,7 @@ func (f *Frame) seqOperand(v ssa.Value, st State) (n Term, at func(i Term) Term,
 	switch u := v.Type().Underlying().(type) {
 	case *types.Slice:
 		es = f.w.Sorts.SortOf(u.Elem())
-		m := st.Heap.Comp(memComp(es), memSort(es))
+		m := st.Heap.Comp(memCompT(u.Elem()), memSort(es))
 		arr := f.vc.Alias("srcarr", Sel(m, SArr(x)))
 		off := f.vc.Alias("srcoff", SOff(x))
 		return SLen(x), func(i Term) Term { return f.w.Sorts.Elt(arr, off, i) }, es
@@ -897,7 +936,7 @@ func (f *Frame) appendBuiltin(ins ssa.CallInstruction, st State) (State, Val) {
 	st0 := st
 	n, at, _ := f.seqOperand(args[1], st)
 	es := f.w.Sorts.SortOf(args[0].Type().Underlying().(*types.Slice).Elem())
-	comp := memComp(es)
+	comp := memCompT(args[0].Type().Underlying().(*types.Slice).Elem())
 	ms := memSort(es)
 	as := ArraySort(SInt, es)
 	m := st.Heap.Comp(comp, ms)
@@ -978,7 +1017,7 @@ func (f *Frame) copyBuiltin(ins ssa.CallInstruction, st State) (State, Val) {
 	d := MkSlice(vc.Alias("darr", SArr(d0)), vc.Alias("doff", SOff(d0)), vc.Alias("dlen", SLen(d0)), vc.Alias("dcap", SCap(d0)))
 	n0, at, _ := f.seqOperand(args[1], st)
 	es := f.w.Sorts.SortOf(args[0].Type().Underlying().(*types.Slice).Elem())
-	comp := memComp(es)
+	comp := memCompT(args[0].Type().Underlying().(*types.Slice).Elem())
 	m := st.Heap.Comp(comp, memSort(es))
 	n := vc.Alias("ncopy", Ite(Le(SLen(d), n0), SLen(d), n0))
 	oldArr := vc.Alias("dstarr", Sel(m, SArr(d)))
